@@ -667,6 +667,9 @@ func mustDecodeTagValueAndArray(valueType pbv1.ValueType, value []byte, valueArr
 			next int
 			err  error
 		)
+		// UnmarshalVarArray un-escapes in place, and a dictionary-encoded column hands out the same backing
+		// bytes for every span that carries the same array: decode a copy.
+		value = append([]byte(nil), value...)
 		for idx := 0; idx < len(value); idx = next {
 			end, next, err = encoding.UnmarshalVarArray(value, idx)
 			if err != nil {
